@@ -58,13 +58,15 @@ def install_probes():
 SHUFFLE = {0: [], 1: [0], 2: [1, 0], 3: [1, 2, 0], 4: [2, 0, 3, 1], 5: [3, 0, 4, 1, 2], 6: [2, 5, 0, 3, 1, 4], 7: [3, 6, 1, 4, 0, 5, 2]}
 
 
-def table(n, has_z=True, has_ll=True, shuffled=False, nat=False):
+def table(n, has_z=True, has_ll=True, shuffled=False, nat=False, duptime=False):
     """rows in file order; with shuffled=True the time column is not monotonic (rows keep their order);
     with nat=True the second row has a missing time (None = NaT)."""
     order = SHUFFLE[n] if shuffled else list(range(n))
     d = dict(n=n, time=[T0 + i * DAY for i in order], v=V[:n], w=W[:n])
     if nat and n >= 2:
         d["time"][1] = None
+    if duptime:  # pairs of rows share a timestamp
+        d["time"] = [T0 + (i // 2) * DAY for i in order]
     if has_z:
         d["z"] = Z[:n]
     if has_ll:
